@@ -603,3 +603,87 @@ package queue
 //@   ensures [C14:counts_equal_changes] !req.PreviewOnly ==> result0.Resumed == card(setof(id string :: id in s.items && s.items[id].State != old(s.items[id].State))) && result0.Matched == result0.Resumed
 //@   ensures [C14:matched_within_limit] result0.Matched <= effLimit(req.Limit)
 //@   ensures [no_error] result1 == nil
+
+// ---- C01: lease mutations on SQLite (ack / nack / extend / dead-letter) answer nil only after their statement committed ----
+
+//@ spec
+//@ pred plainStatement(q string) := q != "BEGIN IMMEDIATE;" && q != "COMMIT;" && q != "ROLLBACK;"
+
+//@ iface database/sql.Result.RowsAffected(self) (n, err)
+
+//@ func execRowsAffectedTx
+//@   requires conn != nil
+//@   modifies durable, txOpen, txPending
+//@   ensures [C01:nil_means_the_statement_ran] plainStatement(query) ==> txOpen == old(txOpen) && durable >= old(durable) && txPending >= old(txPending) && (result1 == nil && !old(txOpen) ==> durable == old(durable) + 1) && (old(txOpen) ==> durable == old(durable)) && (!old(txOpen) ==> txPending == old(txPending))
+
+//@ func (*SQLiteStore).Ack$1
+//@   requires conn != nil && s != nil
+//@   modifies durable, txOpen, txPending
+//@   ensures [C01:autocommit_statement] txOpen == old(txOpen) && durable >= old(durable) && (result1 == nil && !old(txOpen) ==> durable == old(durable) + 1) && (!old(txOpen) ==> txPending == old(txPending))
+//@ func (*SQLiteStore).Nack$1
+//@   requires conn != nil && s != nil
+//@   modifies durable, txOpen, txPending
+//@   ensures [C01:autocommit_statement] txOpen == old(txOpen) && durable >= old(durable) && (result1 == nil && !old(txOpen) ==> durable == old(durable) + 1) && (!old(txOpen) ==> txPending == old(txPending))
+//@ func (*SQLiteStore).Extend$1
+//@   requires conn != nil && s != nil
+//@   modifies durable, txOpen, txPending
+//@   ensures [C01:autocommit_statement] txOpen == old(txOpen) && durable >= old(durable) && (result1 == nil && !old(txOpen) ==> durable == old(durable) + 1) && (!old(txOpen) ==> txPending == old(txPending))
+//@ func (*SQLiteStore).MarkDead$1
+//@   requires conn != nil && s != nil
+//@   modifies durable, txOpen, txPending
+//@   ensures [C01:autocommit_statement] txOpen == old(txOpen) && durable >= old(durable) && (result1 == nil && !old(txOpen) ==> durable == old(durable) + 1) && (!old(txOpen) ==> txPending == old(txPending))
+
+// the clause withLeaseMutation assumes of its function parameter is the clause proved for each closure above
+//@ extern local:mutate(ctx, conn, now, leaseID) (affected, err)
+//@   modifies durable, txOpen, txPending
+//@   ensures txOpen == old(txOpen) && durable >= old(durable) && (err == nil && !old(txOpen) ==> durable == old(durable) + 1) && (!old(txOpen) ==> txPending == old(txPending))
+
+//@ func (*SQLiteStore).requeueLease
+//@   requires conn != nil && s != nil
+//@   modifies durable, txOpen, txPending
+//@   ensures txOpen == old(txOpen) && (old(txOpen) ==> durable == old(durable)) && txPending >= old(txPending)
+
+//@ func (*SQLiteStore).resolveSingleLeaseConflictTx
+//@   requires conn != nil && s != nil && txOpen
+//@   modifies durable, txOpen, txPending
+//@   ensures txOpen && durable == old(durable) && txPending >= old(txPending)
+
+//@ func (*SQLiteStore).resolveLeaseMutationConflictTx$1
+//@   requires s != nil && conn != nil
+//@   modifies durable, txOpen, txPending
+//@   ensures committed ==> durable == old(durable) && txOpen == old(txOpen) && txPending == old(txPending)
+//@   ensures !committed ==> durable == old(durable) && !txOpen && txPending == 0
+
+//@ func (*SQLiteStore).resolveLeaseMutationConflictTx
+//@   requires s != nil && conn != nil && !txOpen && txPending == 0
+//@   modifies durable, txOpen, txPending
+//@   ensures [C04:conflict_is_always_an_error] result != nil
+//@   ensures [C01:no_transaction_left_open] !txOpen && txPending == 0
+//@   ensures [C01:nothing_beyond_the_requeue_committed] durable >= old(durable)
+
+//@ func (*SQLiteStore).withLeaseMutation
+//@   requires s != nil && s.db != nil && !txOpen && txPending == 0
+//@   modifies durable, txOpen, txPending
+//@   ensures [C01:nil_implies_committed] result == nil ==> durable > old(durable)
+//@   ensures [C01:no_transaction_left_open] !txOpen && txPending == 0
+
+//@ func (*SQLiteStore).Ack
+//@   requires s != nil && s.db != nil && !txOpen && txPending == 0
+//@   modifies durable, txOpen, txPending
+//@   ensures [C01:nil_implies_committed] result == nil ==> durable > old(durable)
+//@   ensures [C01:no_transaction_left_open] !txOpen && txPending == 0
+//@ func (*SQLiteStore).Nack
+//@   requires s != nil && s.db != nil && !txOpen && txPending == 0
+//@   modifies durable, txOpen, txPending, signals
+//@   ensures [C01:nil_implies_committed] result == nil ==> durable > old(durable)
+//@   ensures [C01:no_transaction_left_open] !txOpen && txPending == 0
+//@ func (*SQLiteStore).Extend
+//@   requires s != nil && s.db != nil && !txOpen && txPending == 0
+//@   modifies durable, txOpen, txPending
+//@   ensures [C01:nil_implies_committed] result == nil && extendBy > 0 ==> durable > old(durable)
+//@   ensures [C01:no_transaction_left_open] !txOpen && txPending == 0
+//@ func (*SQLiteStore).MarkDead
+//@   requires s != nil && s.db != nil && !txOpen && txPending == 0
+//@   modifies durable, txOpen, txPending, signals
+//@   ensures [C01:nil_implies_committed] result == nil ==> durable > old(durable)
+//@   ensures [C01:no_transaction_left_open] !txOpen && txPending == 0
